@@ -15,8 +15,10 @@ PROPS = "Properties_C05"
 RULE = ("one case = one history (ring size + list of calls) or one capacity query; quick: seeded random histories on "
         "ring sizes {1,2,3,4,5,7,8,9,16,17,100,4096,70000,2^k+1}, request sizes 0..capacity+2 biased to exact "
         "fill/drain and to the wrap point, multi-part transactions incl. failing and abandoned ones, a few hostile "
-        "sizes near 2^32; thorough: additionally ALL histories of a fixed length over a small call alphabet for ring "
-        "sizes 1..4 (exhaustive). non-trivial = a history in which at least one non-empty write/amend and one "
+        "sizes near 2^32; plus ALL histories of a fixed length over a call alphabet (exhaustive): quick = length 3 "
+        "(sizes 1,2; request sizes 0..3) and length 2 (size 4; 0..5); thorough = length 5 (size 1; 0..2), length 4 "
+        "(size 2; 0..3 / size 3; 0..4 / size 4; 0..5), length 5 (size 2; 0..2), length 5 over 17 calls and length 6 "
+        "over 10 calls (size 4). non-trivial = a history in which at least one non-empty write/amend and one "
         "non-empty read/peek occur; distinct = distinct case strings")
 ASSUMPTIONS = [
     "single thread: the atomic loads/stores of ring.c are modelled as plain accesses (the two-thread case is C04)",
@@ -181,14 +183,19 @@ def k_cases():
     return ["K %d" % s for s in sorted(ss) if s < 2**32]
 
 
-def exhaustive(size, length, maxreq):
-    """all histories of exactly `length` calls over the alphabet with request sizes 0..maxreq"""
+def alphabet(maxreq):
     alpha = []
     for k in range(maxreq + 1):
         alpha += [("w", k), ("r", k), ("a", k)]
         if k:
             alpha += [("p", k), ("s", k)]
-    alpha += [("z", 0), ("b", 0), ("c", 0)]
+    return alpha + [("z", 0), ("b", 0), ("c", 0)]
+
+
+def exhaustive(size, length, maxreq=None, alpha=None):
+    """all histories of exactly `length` calls over an alphabet of calls (default: every call with
+    every request size 0..maxreq); shorter histories are prefixes of these"""
+    alpha = alpha or alphabet(maxreq)
     out = []
     for h in itertools.product(alpha, repeat=length):
         toks = []
@@ -201,6 +208,11 @@ def exhaustive(size, length, maxreq):
                 toks.append(o)
         out.append("H %d %s" % (size, " ".join(toks)))
     return out
+
+
+# reduced alphabets for longer exhaustive histories on the 4-byte ring (capacity 3)
+A17 = ([(o, k) for o in "wra" for k in (1, 2, 3, 4)] + [("p", 2), ("s", 1), ("z", 0), ("b", 0), ("c", 0)])
+A10 = ([(o, k) for o in "wr" for k in (1, 2, 3)] + [("a", 1), ("a", 2), ("b", 0), ("c", 0)])
 
 
 def gen(ctx, seed, tier):
@@ -223,6 +235,7 @@ def gen(ctx, seed, tier):
     if seed == ctx.seed:      # exhaustive parts are the same for every seed: only once
         if tier == "thorough":
             cases += exhaustive(1, 5, 2) + exhaustive(2, 4, 3) + exhaustive(3, 4, 4) + exhaustive(4, 4, 5)
+            cases += exhaustive(2, 5, 2) + exhaustive(4, 5, alpha=A17) + exhaustive(4, 6, alpha=A10)
         else:
             cases += exhaustive(1, 3, 2) + exhaustive(2, 3, 3) + exhaustive(4, 2, 5)
     return cases
